@@ -367,3 +367,41 @@ def _replay_rewriter(task, failure):
     if r == _z3.sat:
         return {"reproduced": True, "text": f"{fn}{args!r} = {res!r} is not equivalent to the written {op}: differs under {s.model()}"}
     return {"reproduced": False, "text": f"{fn}{args!r} = {res!r}; z3 says {r} for non-equivalence"}
+
+
+# ---- coverage of the rewrite table ----------------------------------------------------------------------------------
+
+# entries of simplifications._all_simplifiers that have no obligation of their own, with the reason
+TABLE_EXEMPT = {
+    ("If", "if_simplifier"): "never consulted: claripy.If rewrites inline (ast.bool.If has its own obligation)",
+    ("StrReverse", "str_reverse_simplifier"): "no operation StrReverse exists (no constructor, no backend handler): the entry cannot be reached",
+    ("fpToIEEEBV", "fptobv_simplifier"): "C02: fpsimp.fptobv_simplifier",
+    ("fpToFP", "fptofp_simplifier"): "C02: fpsimp.fptofp_simplifier",
+}
+
+
+def ob_table_coverage():
+    """every rewriter that construction consults (simplifications._all_simplifiers, read from the current source) is under contract: it is
+    in the table of obligations of C01 (vf/props/C01.py:RW) under the operation it is registered for, or exempt for a stated reason.  A rewriter
+    added to the table without an obligation is an unverified change of what expressions mean."""
+    from vf.props import C01
+    ns = load()
+    table = ns["_all_simplifiers"]
+    res = paths.Result()
+    res.paths = 1
+    covered = {(op.replace("bool", ""), rw) for rw, op, _ in C01.RW}
+    problems = []
+    for op, fn in table.items():
+        res.vcs += 1
+        key = (op, getattr(fn, "__name__", str(fn)))
+        if key in covered or key in TABLE_EXEMPT:
+            continue
+        problems.append(f"operation {op!r} is rewritten by {key[1]}, which has no obligation")
+    for (op, rw) in covered:
+        res.vcs += 1
+        if getattr(table.get(op), "__name__", None) != rw:
+            problems.append(f"the obligations for {rw} assume it is the rewriter of {op!r}; the table says {getattr(table.get(op), '__name__', None)}")
+    for p in problems:
+        res.failures.append(paths.Failure("simplifications.table/coverage", "frame", {}, p, []))
+    res.status = "violated" if problems else ("discharged" if res.vcs else "undecided")
+    return res
